@@ -512,6 +512,12 @@ class Asm:
         elif k == "data":
             unit = {"byte": 1, "word": 2, "dword": 4}[s["d"]]
             if unit > 1 and a % 2:
+                # which complaint comes first is not specified: note the operands' own errors next to this one
+                for e in s["es"]:
+                    try:
+                        self.word(node, e, 8 * unit)
+                    except (AsmError, X.EvalError) as ex:
+                        self.err(ex.kind)
                 raise AsmError("odd-address")
             vals = [self.word(node, e, 8 * unit) for e in s["es"]] or [0]
             for v in vals:
@@ -523,6 +529,11 @@ class Asm:
                     out += struct.pack("<HH", v >> 16, v & 0xFFFF)
         elif k == "words":
             if a % 2:
+                for e in s["es"]:
+                    try:
+                        self.word(node, e)
+                    except (AsmError, X.EvalError) as ex:
+                        self.err(ex.kind)
                 raise AsmError("odd-address")
             for e in s["es"]:
                 out += struct.pack("<H", self.word(node, e))
